@@ -56,11 +56,15 @@ func nativeReplay(ld *Loaded, rf *ReplayFile) (bool, string, error) {
 	}
 	// redirect time.Now() in repo packages to the replay clock
 	pkgName := ""
+	pkgPath := repoMod // the root package (the commands) when rf.Pkg is empty
+	if rf.Pkg != "" {
+		pkgPath = repoMod + "/" + rf.Pkg
+	}
 	packages.Visit(ld.pkgs, nil, func(p *packages.Package) {
 		if !strings.HasPrefix(p.PkgPath, repoMod) || strings.Contains(p.PkgPath, "/internal/verif") {
 			return
 		}
-		if p.PkgPath == repoMod+"/"+rf.Pkg {
+		if p.PkgPath == pkgPath {
 			pkgName = p.Name
 		}
 		rewrote := false
@@ -119,7 +123,7 @@ func TestVerifReplay(t *testing.T) {
 		// a data race found by the happens-before analysis is confirmed with Go's own race detector
 		args = append(args, "-race")
 	}
-	cmd := exec.CommandContext(ctx, "go", append(args, repoMod+"/"+rf.Pkg)...)
+	cmd := exec.CommandContext(ctx, "go", append(args, pkgPath)...)
 	cmd.Dir = repoDir
 	cmd.Env = append(os.Environ(), "GOFLAGS=-mod=mod", "GOPROXY=off", "GOSUMDB=off", "GOTOOLCHAIN=local", "VERIF_REPLAY="+rfPath)
 	out, _ := cmd.CombinedOutput()
